@@ -145,22 +145,32 @@ def r19_2(ctx, rep):
     fx = ctx.fx
     ro = [f for f in fx.fns.values() if f.get("impl_self") == "transport::udp::UdpSocket" and f.get("is_async") and "Option<(" in (f.get("output") or "")
           and "ChitchatMessage" in (f.get("output") or "") and f["id"] not in getattr(fx, "new_helpers", ())]
+    rv = [f for f in fx.fns.values() if f.get("impl_self") == "transport::udp::UdpSocket" and f.get("impl_trait") == "transport::Socket" and f["id"].endswith("::recv")]
+    inlined = False
     if len(ro) != 1:
-        raise AnchorLost("receive_one", "UdpSocket method returning Result<Option<(addr, msg)>> not found")
-    co = coroutine_of(fx, ro[0]["id"])
+        # the one-datagram step may have been inlined into `recv`'s loop: "nothing to hand out" is then `continue` (a loop-body
+        # path) instead of Ok(None)
+        if len(ro) == 0 and len(rv) == 1:
+            inlined = True
+            co = coroutine_of(fx, rv[0]["id"])
+        else:
+            raise AnchorLost("receive_one", "UdpSocket method returning Result<Option<(addr, msg)>> not found")
+    else:
+        co = coroutine_of(fx, ro[0]["id"])
     rep.anchor("receive_one", where(co))
     eng, rows = table(fx, co["id"])
     # the transient-error classifier, by signature (fn(&io::Error) -> bool in transport::udp), not by name
     tcls = [f["id"] for f in fx.fns.values() if f["kind"] == "fn" and f.get("inputs") == ["&std::io::Error"] and f.get("output") == "bool" and f["id"].startswith("transport::udp")]
     seen = set()
     for row in rows:
-        if row.exit != "return":
+        if row.exit != "return" and not (inlined and row.exit == "backedge"):
             continue
         t = row.ret
         kind = t[2] if t is not None and t[0] == "agg" else "?"
         if kind == "?" and t is not None and t[0] == "call" and t[1].endswith("::context") and t[2] and t[2][0][0] == "agg":
             kind = t[2][0][2]    # Err(e).context(..) stays an Err
         io_err = transient = dec = None
+        polled = False
         for c in row.cond:
             if c[0] == "variant" and c[3] and c[2] in ("Ok", "Err"):
                 calls = [s[1] for s in T.subterms(c[1]) if s[0] == "call"]
@@ -168,14 +178,24 @@ def r19_2(ctx, rep):
                     dec = c[2]
                 elif any("poll" in n or "recv_from" in n for n in calls):
                     io_err = c[2] == "Err"
+            if c[0] == "variant" and c[3] and c[2] == "Pending":
+                polled = True
             if c[0] == "truth" and c[1][0] == "call" and c[1][1] in tcls:
                 transient = c[2]
             elif c[0] == "truth" and c[1][0] == "un" and c[1][1] == "Not" and c[1][2][0] == "call" and c[1][2][1] in tcls:
                 transient = not c[2]
-        inner = None
-        if kind == "Ok":
-            p = T.field(t, "0")
-            inner = "Some" if sym.is_some(p) else "None" if sym.is_none(p) else "?"
+        if inlined and row.exit == "backedge":
+            if polled or (io_err is None and dec is None):
+                continue          # the await loop of recv_from itself
+            kind, inner = "Ok", "None"        # `continue`: nothing handed out, the loop goes on
+        else:
+            inner = None
+            if kind == "Ok":
+                p = T.field(t, "0")
+                if inlined:
+                    inner = "Some" if (p is not None and p[0] == "agg" and p[1] == "<tuple>") else "?"
+                else:
+                    inner = "Some" if sym.is_some(p) else "None" if sym.is_none(p) else "?"
         cls = (io_err, transient, dec)
         seen.add(cls + (kind, inner))
         if io_err:
@@ -187,12 +207,11 @@ def r19_2(ctx, rep):
         else:
             want = None
         rep.obligation(want is not None and (kind, inner) == want, "C19/R19.2/classification",
-                       "receive_one returns %s(%s) when io error=%s transient=%s decode=%s" % (kind, inner, io_err, transient, dec), where(co, row.site[1]),
+                       "receive_one returns %s(%s) when io error=%s transient=%s decode=%s" % (kind, inner, io_err, transient, dec), where(co, row.site[1] if isinstance(row.site, tuple) else None),
                        sample="io_err=%s transient=%s decode=%s -> %s(%s)" % (io_err, transient, dec, kind, inner))
     rep.floor("classified-exits", len(seen), 4)
     # recv loops on None
-    rv = [f for f in fx.fns.values() if f.get("impl_self") == "transport::udp::UdpSocket" and f.get("impl_trait") == "transport::Socket" and f["id"].endswith("::recv")]
-    if rv:
+    if rv and not inlined:
         cor = coroutine_of(fx, rv[0]["id"])
         eng2, rows2 = table(fx, cor["id"])
         for row in rows2:
@@ -204,9 +223,6 @@ def r19_2(ctx, rep):
                 rep.obligation((kind == "Ok" and some) or (kind == "Err" and errp) or kind == "?", "C19/R19.2/recv-loop", "recv returns %s without a message or an error" % kind,
                                where(cor), sample="recv: returns only a message or a fatal error")
     rep.instance(len(seen))
-
-
-YIELD_OK_INSIDE = ()
 
 
 def r19_3(ctx, rep, meths):
